@@ -12,7 +12,8 @@
    recording which library operators produced it from the source arrays.  `c04_step` mirrors the
    `if name not in ds` branching of the getters and populate functions, defects included
    (parameter fx : c04_fixes selects, for each of the seven defective code sites, the code as it
-   was found (false) or its one-line repair (true); Gen/C04_variant.v records which variant the
+   was found (false) or its one-line repair (true; the node-longitude site has two alternative
+   repairs); Gen/C04_variant.v records which variant the
    current source contains).
    `c04_ty_ll / c04_ty_xyz` is a unit-and-range checker of expressions (degrees vs radians,
    longitude interval, unit vs scaled length, which element kind the direction belongs to).
@@ -116,23 +117,26 @@ Definition c04_init (c : c04_case) : c04_state :=
 
 (* the seven code sites with a known defect: false = as found, true = repaired
      fx_node_wrap  _populate_node_latlon wraps the derived longitudes into [-180,180)
+     fx_node_after Grid.node_lon/node_lat call _set_desired_longitude_range AFTER
+                   _populate_node_latlon instead of before (/repo commit f9f02c9f); either of the
+                   two repairs the node-longitude site
      fx_*_deg      _populate_{face,edge}_centroids convert stored lon/lat to radians before
                    _lonlat_rad_to_xyz
      fx_*_norm     _populate_{face,edge}_centroids call _xyz_to_lonlat_deg(normalize=True)
      fx_*_check    the edge_x / face_x branch of _check_normalization tests its own coordinates *)
 Record c04_fixes := {
-  fx_node_wrap : bool; fx_face_deg : bool; fx_edge_deg : bool; fx_face_norm : bool;
-  fx_edge_norm : bool; fx_edge_check : bool; fx_face_check : bool }.
+  fx_node_wrap : bool; fx_node_after : bool; fx_face_deg : bool; fx_edge_deg : bool;
+  fx_face_norm : bool; fx_edge_norm : bool; fx_edge_check : bool; fx_face_check : bool }.
 
 Definition c04_fixed_all : c04_fixes :=
-  {| fx_node_wrap := true; fx_face_deg := true; fx_edge_deg := true; fx_face_norm := true;
-     fx_edge_norm := true; fx_edge_check := true; fx_face_check := true |}.
+  {| fx_node_wrap := false; fx_node_after := true; fx_face_deg := true; fx_edge_deg := true;
+     fx_face_norm := true; fx_edge_norm := true; fx_edge_check := true; fx_face_check := true |}.
 Definition c04_as_found : c04_fixes :=
-  {| fx_node_wrap := false; fx_face_deg := false; fx_edge_deg := false; fx_face_norm := false;
-     fx_edge_norm := false; fx_edge_check := false; fx_face_check := false |}.
+  {| fx_node_wrap := false; fx_node_after := false; fx_face_deg := false; fx_edge_deg := false;
+     fx_face_norm := false; fx_edge_norm := false; fx_edge_check := false; fx_face_check := false |}.
 Definition c04_all_fixed (fx : c04_fixes) : bool :=
-  fx_node_wrap fx && fx_face_deg fx && fx_edge_deg fx && fx_face_norm fx && fx_edge_norm fx &&
-  fx_edge_check fx && fx_face_check fx.
+  (fx_node_wrap fx || fx_node_after fx) && fx_face_deg fx && fx_edge_deg fx && fx_face_norm fx &&
+  fx_edge_norm fx && fx_edge_check fx && fx_face_check fx.
 
 Definition c04_fx_deg (fx : c04_fixes) (k : c04_kind) : bool :=
   match k with KFace => fx_face_deg fx | KEdge => fx_edge_deg fx | KNode => true end.
@@ -155,15 +159,17 @@ Definition c04_ensure_node_xyz (s : c04_state) : c04_state :=
   | None => c04_set_xyz KNode (Some (XOfLL (LDeg2Rad (c04_the_ll s KNode)))) s
   end.
 
-(* Grid.node_lon/lat getter: range fix FIRST, then _populate_node_latlon (rad2deg of
-   _xyz_to_lonlat_rad, longitudes in [0,360)); the repair wraps the derived longitudes *)
+(* Grid.node_lon/lat getter.  As found: range fix FIRST, then _populate_node_latlon (rad2deg of
+   _xyz_to_lonlat_rad, longitudes in [0,360)).  Repair fx_node_wrap: the populate function wraps the
+   derived longitudes.  Repair fx_node_after (the one in /repo): populate first, range fix after. *)
 Definition c04_get_node_ll (fx : c04_fixes) (s : c04_state) : c04_state :=
   match st_nll s with
   | Some _ => s
   | None =>
-      let s1 := c04_set_range s in
+      let s1 := if fx_node_after fx then s else c04_set_range s in
       let l := LRad2Deg (LOfXyz true (c04_the_xyz s1 KNode)) in
-      c04_set_ll KNode (Some (if fx_node_wrap fx then LWrap l else l)) s1
+      let s2 := c04_set_ll KNode (Some (if fx_node_wrap fx then LWrap l else l)) s1 in
+      if fx_node_after fx then c04_set_range s2 else s2
   end.
 
 (* _populate_face_centroids / _populate_edge_centroids (repopulate=False), k = KFace / KEdge *)
@@ -408,8 +414,8 @@ Definition c04_case_of_codes (l : list Z) : c04_case :=
 
 Definition c04_fixes_of_codes (l : list Z) : c04_fixes :=
   let b i := negb (nth i l 0 =? 0) in
-  {| fx_node_wrap := b 0%nat; fx_face_deg := b 1%nat; fx_edge_deg := b 2%nat; fx_face_norm := b 3%nat;
-     fx_edge_norm := b 4%nat; fx_edge_check := b 5%nat; fx_face_check := b 6%nat |}.
+  {| fx_node_wrap := b 0%nat; fx_node_after := b 1%nat; fx_face_deg := b 2%nat; fx_edge_deg := b 3%nat;
+     fx_face_norm := b 4%nat; fx_edge_norm := b 5%nat; fx_edge_check := b 6%nat; fx_face_check := b 7%nat |}.
 
 (* driver entry: variant codes, case codes, op codes -> initial state followed by the state after
    every op *)
